@@ -27,6 +27,7 @@ import (
 	"github.com/lindb/common/pkg/timeutil"
 	"go.uber.org/atomic"
 
+	"github.com/lindb/lindb/internal/verifhook"
 	"github.com/lindb/lindb/kv/table"
 	"github.com/lindb/lindb/kv/version"
 )
@@ -316,17 +317,20 @@ func (f *family) deleteObsoleteFiles() {
 		}
 		return true
 	})
+	verifhook.Yield("family.deleteObsoleteFiles.afterPending")
 	// add live files
 	allLiveSSTFiles := f.familyVersion.GetAllActiveFiles()
 	for idx := range allLiveSSTFiles {
 		liveFiles[allLiveSSTFiles[idx].GetFileNumber()] = dummy
 	}
+	verifhook.Yield("family.deleteObsoleteFiles.afterActive")
 	// add live rollup files, maybe some rollup files is not alive in current family version,
 	// but those files cannot delete, because need read those files when do rollup job
 	rollupFiles := f.familyVersion.GetLiveRollupFiles()
 	for file := range rollupFiles {
 		liveFiles[file] = dummy
 	}
+	verifhook.Yield("family.deleteObsoleteFiles.afterRollup")
 	for _, fileName := range sstFiles {
 		fileDesc := version.ParseFileName(fileName)
 		if fileDesc == nil {
